@@ -985,15 +985,42 @@ fn subst_macro(body: TokenStream, var: &str, arg: &TokenStream) -> TokenStream {
 }
 
 struct MacPass<'a> {
-    macros: &'a [(String, String, TokenStream)],
+    macros: &'a [(String, Vec<String>, TokenStream)],
+    vec_pushes: bool,
+    nvec: usize,
     log: &'a mut Vec<String>,
 }
 impl<'a> MacPass<'a> {
     fn expand(&mut self, m: &syn::Macro) -> Option<Expr> {
         let name = mac_name(m);
-        for (n, var, body) in self.macros {
+        if name == "vec" && self.vec_pushes {
+            // R-VEC: `vec![e1, .., en]` spelled out as n pushes onto a new vector (what the macro means), so that the element expressions
+            // become ordinary expressions the other rules and the verifier see
+            use syn::punctuated::Punctuated;
+            let parser = Punctuated::<Expr, syn::Token![,]>::parse_terminated;
+            if let Ok(elems) = syn::parse::Parser::parse2(parser, m.tokens.clone()) {
+                if !elems.is_empty() {
+                    self.nvec += 1;
+                    let v = quote::format_ident!("__fjx_vec{}", self.nvec);
+                    let es: Vec<&Expr> = elems.iter().collect();
+                    let e: Expr = parse_quote! { { let mut #v = Vec::new(); #( #v.push(#es); )* #v } };
+                    self.log.push(format!("R-VEC vec![..] of {} elements spelled out as pushes", es.len()));
+                    return Some(e);
+                }
+            }
+            return None;
+        }
+        for (n, vars, body) in self.macros {
             if *n == name {
-                let ts = subst_macro(body.clone(), var, &m.tokens);
+                let ts = if vars.len() == 1 { subst_macro(body.clone(), &vars[0], &m.tokens) } else {
+                    use syn::punctuated::Punctuated;
+                    let parser = Punctuated::<Expr, syn::Token![,]>::parse_terminated;
+                    let args = syn::parse::Parser::parse2(parser, m.tokens.clone()).unwrap_or_else(|_| die(&format!("R-MAC: arguments of {name}! are not expressions")));
+                    if args.len() != vars.len() { die(&format!("R-MAC: {name}! called with {} arguments, its rule takes {}", args.len(), vars.len())); }
+                    let mut b = body.clone();
+                    for (v, a) in vars.iter().zip(args.iter()) { b = subst_macro(b, v, &a.to_token_stream()); }
+                    b
+                };
                 let e: Expr = syn::parse2(ts).unwrap_or_else(|_| die(&format!("R-MAC: expansion of {name}! is not an expression")));
                 self.log.push(format!("R-MAC {name}!(..) expanded by its definition"));
                 return Some(e);
@@ -1608,7 +1635,9 @@ struct Unit {
     paths: Vec<(Vec<String>, Vec<String>)>,
     world_pats: Vec<String>,
     broadcast: String,
-    macros: Vec<(String, String, TokenStream)>,
+    macros: Vec<(String, Vec<String>, TokenStream)>,
+    vec_pushes: bool,
+    method_shims: Vec<(String, String)>,
     guards: Vec<String>,
     pure_names: Vec<String>,
     type_map: Vec<(String, String)>,
@@ -1958,8 +1987,30 @@ impl Unit {
             log.push(format!("R-ATTR dropped {} attribute(s)", ap.dropped));
         }
         // R-MAC
-        if !self.macros.is_empty() {
-            MacPass { macros: &self.macros, log: &mut log }.visit_block_mut(&mut block);
+        if !self.macros.is_empty() || self.vec_pushes {
+            MacPass { macros: &self.macros, vec_pushes: self.vec_pushes, nvec: 0, log: &mut log }.visit_block_mut(&mut block);
+        }
+        if !self.method_shims.is_empty() {
+            // R-METHOD: `recv.m(args)` -> `f(recv, args)` for the std methods named by //@method-shim (Verus cannot attach a
+            // specification to them, e.g. the const-generic return type of uN::to_le_bytes); f is a shim with an assumed contract
+            struct MethodPass<'a> { tbl: &'a [(String, String)], log: &'a mut Vec<String> }
+            impl<'a> VisitMut for MethodPass<'a> {
+                fn visit_expr_mut(&mut self, e: &mut Expr) {
+                    visit_mut::visit_expr_mut(self, e);
+                    let mut new: Option<Expr> = None;
+                    if let Expr::MethodCall(mc) = e {
+                        if let Some((_, f)) = self.tbl.iter().find(|(m, _)| mc.method == m) {
+                            let fi: syn::Path = syn::parse_str(f).unwrap_or_else(|_| die("bad //@method-shim target"));
+                            let recv = &mc.receiver;
+                            let args: Vec<&Expr> = mc.args.iter().collect();
+                            new = Some(parse_quote! { #fi(#recv #(, #args)*) });
+                            self.log.push(format!("R-METHOD .{}() -> {}(..)", mc.method, f));
+                        }
+                    }
+                    if let Some(n) = new { *e = n; }
+                }
+            }
+            MethodPass { tbl: &self.method_shims, log: &mut log }.visit_block_mut(&mut block);
         }
         // R-LOG / R-DBG
         LogDbgPass { log: &mut log, effect_names: &effect_names }.visit_block_mut(&mut block);
@@ -2831,12 +2882,28 @@ impl Unit {
                         if let (TokenTree::Group(pat), TokenTree::Group(body)) = (&toks[0], &toks[3]) {
                             let p: Vec<TokenTree> = pat.stream().into_iter().collect();
                             if p.len() == 4 && p[0].to_string() == "$" && p[2].to_string() == ":" && p[3].to_string() == "expr" && toks.len() <= 5 {
-                                self.macros.push((name.to_string(), p[1].to_string(), body.stream()));
+                                self.macros.push((name.to_string(), vec![p[1].to_string()], body.stream()));
                                 return;
+                            }
+                            // ( $a : expr , $b : expr , .. ) => { body }
+                            if toks.len() <= 5 && p.len() % 5 == 4 {
+                                let mut vars = vec![];
+                                let mut ok = true;
+                                let mut k = 0;
+                                while k < p.len() {
+                                    if k + 3 < p.len() + 0 && p[k].to_string() == "$" && p[k + 2].to_string() == ":" && p[k + 3].to_string() == "expr" && (k + 4 == p.len() || p[k + 4].to_string() == ",") {
+                                        vars.push(p[k + 1].to_string());
+                                        k += 5;
+                                    } else { ok = false; break; }
+                                }
+                                if ok && vars.len() > 1 {
+                                    self.macros.push((name.to_string(), vars, body.stream()));
+                                    return;
+                                }
                             }
                         }
                     }
-                    die(&format!("unsupported construct: macro {name} is not a single `($x:expr) => {{..}}` rule"));
+                    die(&format!("unsupported construct: macro {name} is not a single `($x:expr, ..) => {{..}}` rule"));
                 }
             }
         }
@@ -2906,6 +2973,13 @@ impl Unit {
                     }
                     "identity-cast" => {
                         self.identity_casts.push(nospace(rest));
+                    }
+                    "vec-pushes" => {
+                        self.vec_pushes = true;
+                    }
+                    "method-shim" => {
+                        let (m, f) = rest.split_once("=>").unwrap_or_else(|| die("bad //@method-shim (method => function)"));
+                        self.method_shims.push((m.trim().to_string(), f.trim().to_string()));
                     }
                     "range-shim" => {
                         self.range_shim = true;
@@ -3139,6 +3213,8 @@ fn main() {
         range_shim: false,
         cursor_shim: false,
         identity_casts: vec![],
+        vec_pushes: false,
+        method_shims: vec![],
     };
     u.process(Path::new(&args[3]), 0);
     std::fs::write(&args[4], &u.out).unwrap_or_else(|_| die("cannot write output"));
